@@ -45,6 +45,9 @@ theorem C16_sound (emptyHash : Hash) (inj : Merkle.NodeInj node) (e : Env) (sigs
     simp only [hvs, hc] at h
     cases hn : e.req.note with
     | malformed l => simp [Env.opened, hn] at hvs
+    | truncated nt =>
+      simp only [Env.opened, hn] at hvs
+      split at hvs <;> cases hvs
     | wellformed note =>
       have hck : parseCheckpoint note.text = some c := by simpa [Env.ckpt, Env.text, hn] using hc
       have hlines : e.lines = note.sigs := by simp [Env.lines, hn]
@@ -94,6 +97,9 @@ theorem C16_nonempty (e : Env) (sigs : List SigLine) (h : signSubtree node e = .
       -- the verified list is not empty and its first element matches one of the own keys
       cases hn : e.req.note with
       | malformed l => simp [Env.opened, hn] at hvs
+      | truncated nt =>
+        simp only [Env.opened, hn] at hvs
+        split at hvs <;> cases hvs
       | wellformed note =>
         simp only [Env.opened, hn] at hvs
         obtain ⟨hne, hall⟩ := noteOpen_sound hvs
@@ -252,4 +258,39 @@ example : Merkle.validSubtree 4 8 = true ∧ Merkle.validSubtree 4 7 = true ∧ 
     Merkle.validSubtree 0 5 = true ∧ Merkle.validSubtree 5 5 = false ∧ Merkle.validSubtree 6 5 = false := by
   decide
 
+/-! ### non-vacuity: the machine answers -/
+namespace Example
+
+def nodeE (a b : Hash) : Hash := a.take 16 ++ b.take 16
+def k1 : VKey := ⟨[119], 1, 0⟩
+def k2 : VKey := ⟨[119], 2, 1⟩
+def km : VKey := ⟨[109], 4, 3⟩
+def logKey : VKey := ⟨[111], 3, 2⟩
+def cfg : Cfg := { k1 := k1, k2 := k2, mirror := some km, logs := [⟨[111], [logKey]⟩] }
+def leaf0 : Hash := List.replicate 32 7
+def leaf1 : Hash := List.replicate 32 9
+def text : Bytes := formatCheckpoint { origin := [111], n := 2, hash := nodeE leaf0 leaf1, ext := [] }
+def note (ks : List VKey) : NoteForm := .wellformed { text := text, sigs := ks.map (·.sign text) }
+def env (ks : List VKey) (s e : Nat) (h : Hash) (p : List Hash) : Env :=
+  { cfg := cfg, req := { body := .ok, start := s, stop := e, hash := h, proof := p, note := note ks } }
+
+def line (k : VKey) (s e : Nat) (h : Hash) : Option Checkpoint.SigLine :=
+  (subtreeMessage k.name 0 [111] s e h).map fun m => { name := k.name, hash := k.hash, sig := symSig k.key m }
+
+set_option maxRecDepth 100000
+
+/-- cosigned by the witness' ML-DSA key and the mirror key: both sign the subtree [0,1) -/
+example : some (signSubtree nodeE (env [logKey, k1, k2, km] 0 1 leaf0 [leaf1])) =
+    (do let a ← line k2 0 1 leaf0; let b ← line km 0 1 leaf0; pure (Resp.ok [a, b])) := by decide
+
+/-- cosigned by the ML-DSA key only: only that key signs; by the Ed25519 key only: 403 -/
+example : some (signSubtree nodeE (env [logKey, k2] 1 2 leaf1 [leaf0])) =
+    (do let a ← line k2 1 2 leaf1; pure (Resp.ok [a])) := by decide
+example : signSubtree nodeE (env [logKey, k1] 0 1 leaf0 [leaf1]) = .err .invalidSignature 0 := by decide
+/-- a wrong hash: 422; a range beyond the size: 400; a range that is not a subtree: 400 -/
+example : signSubtree nodeE (env [logKey, k2] 0 1 leaf1 [leaf1]) = .err .proof 0 := by decide
+example : signSubtree nodeE (env [logKey, k2] 2 3 leaf1 []) = .err .badRequest 0 := by decide
+example : signSubtree nodeE (env [logKey, k2] 1 3 leaf1 []) = .err .badRequest 0 := by decide
+
+end Example
 end C16
